@@ -102,6 +102,11 @@ type uniqueID struct {
 func (u *uniqueID) sample() [24]byte {
 	u.counter = u.counter.Add(u.counter, common.Big1)
 	var id [24]byte
-	copy(id[:], u.counter.Bytes())
+	b := u.counter.Bytes()
+	if len(b) > len(id) {
+		b = b[len(b)-len(id):]
+	}
+	// right-align, so that different counters never share an ID
+	copy(id[len(id)-len(b):], b)
 	return id
 }
